@@ -15,6 +15,7 @@ use regex_automata::{
 };
 
 use crate::leaf::{Leaf, LeafId};
+use regex_syntax::hir::{Hir, HirKind};
 
 mod dfa_util;
 mod export;
@@ -440,7 +441,7 @@ impl Graph {
         };
         if graph.dfa.has_empty() {
             for (leaf_id, leaf) in graph.leaves.iter().enumerate() {
-                if leaf.pattern.hir().properties().minimum_len() == Some(0) {
+                if can_match_empty(leaf.pattern.hir()) {
                     graph.errors.push(GraphError::EmptyMatch(LeafId(leaf_id)));
                 }
             }
@@ -713,6 +714,21 @@ impl Graph {
         if let Some(new_root) = rewrites.get(&self.root) {
             self.root = *new_root;
         }
+    }
+}
+
+/// Whether the pattern matches the empty string. `Properties::minimum_len` cannot be used for
+/// this: it is `None` for `[a&&b]*` (a repetition of something that never matches), which does
+/// match the empty string.
+fn can_match_empty(hir: &Hir) -> bool {
+    match hir.kind() {
+        HirKind::Empty | HirKind::Look(_) => true,
+        HirKind::Literal(literal) => literal.0.is_empty(),
+        HirKind::Class(_) => false,
+        HirKind::Repetition(repetition) => repetition.min == 0 || can_match_empty(&repetition.sub),
+        HirKind::Capture(capture) => can_match_empty(&capture.sub),
+        HirKind::Concat(subs) => subs.iter().all(can_match_empty),
+        HirKind::Alternation(subs) => subs.iter().any(can_match_empty),
     }
 }
 
